@@ -189,3 +189,105 @@ func VerifC13Concurrent() {
 	}
 	vCover("done")
 }
+
+// VerifC13CancelRace: the current group subscriber's client goes away (context
+// cancelled, subscription closed - its loop ends and cleans up) while another
+// member subscribes (same or different consumer id, arbitrary epochs), with a
+// message arriving in between, under the exploring scheduler. When everything
+// has settled: a subscriber with an older epoch than the holder it met was
+// refused; at most one subscription is active; if the newcomer was accepted and
+// nobody cancelled it, it is active and the partition's group entry names it
+// (the clean-up of the ended subscription did not take it away); if it was
+// refused, no entry points to a dead subscription for ever: a further subscribe
+// with a newer epoch is accepted.
+func VerifC13CancelRace() {
+	dir := vTempDir()
+	srv := vMkServer(dir)
+	p := vMkPartition(srv, dir+"/p")
+	ids := []string{"c1", "c2"}
+	e1 := vNondetUint64("epoch")
+	e2 := vNondetUint64("epoch")
+	vAssume(e1 < 1<<63) // room for a newer epoch afterwards
+	vAssume(e2 < 1<<63)
+	ctxA, cancelA := context.WithCancel(context.Background())
+	a, st := p.Subscribe(ctxA, &client.SubscribeRequest{Stream: "s", StartPosition: client.StartPosition_NEW_ONLY,
+		Consumer: &client.Consumer{GroupId: "g", ConsumerId: "c1", GroupEpoch: e1}})
+	vAssert(st == nil, "the first group subscriber is accepted")
+	if st != nil {
+		return
+	}
+	vYield()
+	idB := ids[vChoose(2)]
+	var b *subscription
+	var bOK bool
+	done := make(chan struct{}, 3)
+	vSchedExplore(vParam("preemptions", 1))
+	go func() { // A's client goes away
+		cancelA()
+		a.Close()
+		done <- struct{}{}
+	}()
+	go func() { // B subscribes
+		sub, st := p.Subscribe(context.Background(), &client.SubscribeRequest{Stream: "s", StartPosition: client.StartPosition_NEW_ONLY,
+			Consumer: &client.Consumer{GroupId: "g", ConsumerId: idB, GroupEpoch: e2}})
+		b, bOK = sub, st == nil
+		done <- struct{}{}
+	}()
+	go func() { // a message is committed: parked loops wake up
+		_, err := p.log.Append([]*commitlog.Message{{Value: []byte{1}, Timestamp: 1, MagicByte: 2}})
+		vAssert(err == nil, "append succeeds")
+		p.log.SetHighWatermark(0)
+		done <- struct{}{}
+	}()
+	<-done
+	<-done
+	<-done
+	// let the loops settle (still under the exploring scheduler), draining deliveries
+	for i := 0; i < 3; i++ {
+		vYield()
+		select {
+		case <-a.Messages():
+		default:
+		}
+		if bOK {
+			select {
+			case <-b.Messages():
+			default:
+			}
+		}
+	}
+	vSchedExplore(0)
+	vYield()
+	vAssert(vIsClosed(a), "a subscription whose client went away is closed")
+	if !bOK {
+		// only an older epoch is refused, and only while the old holder was still registered
+		vAssert(e2 < e1, "a subscriber with an equal or newer group epoch is accepted")
+		vCover("refused")
+	} else {
+		vCover("accepted")
+		vAssert(!vIsClosed(b), "the accepted subscription stays active: nobody cancelled it")
+		gm := p.GetGroupConsumer("g")
+		vAssert(gm != nil, "the partition knows the active group subscriber")
+		if gm != nil {
+			vAssert(gm.sub == b, "the partition's group entry names the active subscription (the ended one's clean-up left it alone)")
+			vAssert(gm.groupEpoch == e2, "the partition's group entry carries the active subscriber's epoch")
+		}
+	}
+	// the group is never wedged: a member with a newer epoch than both gets in
+	e3 := e1
+	if e2 > e3 {
+		e3 = e2
+	}
+	c, st := p.Subscribe(context.Background(), &client.SubscribeRequest{Stream: "s", StartPosition: client.StartPosition_NEW_ONLY,
+		Consumer: &client.Consumer{GroupId: "g", ConsumerId: "c2", GroupEpoch: e3 + 1}})
+	vAssert(st == nil, "a later subscriber with a newer group epoch is accepted")
+	if st == nil {
+		vYield()
+		if bOK {
+			vAssert(vIsClosed(b), "the previous group subscriber is cancelled by its successor")
+		}
+		gm := p.GetGroupConsumer("g")
+		vAssert(gm != nil && gm.sub == c, "the partition's group entry names the successor")
+	}
+	vCover("done")
+}
